@@ -184,6 +184,7 @@ type result struct {
 	FailedSet            string // which steps are recorded as failed (compared with the fault-free run: only a NEW failure counts)
 	CardAccessDiffers    bool   // the returned EF.CardAccess is not the chip's (only possible after a fault on an unprotected exchange)
 	HasDG14              bool
+	Present              []int       // files obtained
 	AlteredAuthenticated []int       // files covered by the security object returned with other bytes after a clear-text fault
 	PlainResp            map[int]int // fault-free run: exchange index -> response length, for exchanges outside secure messaging
 }
@@ -332,6 +333,7 @@ func runCase(cc chipCfg, faults []fault, n int) result {
 		}
 	}
 	pa := s.PassiveAuthResult != nil && s.PassiveAuthResult.Success
+	res.Present = present
 	res.Complete = fmt.Sprintf("files=%v/bac=%v/pace=%v/cam=%v/ca=%v/aa=%v/pa=%v/trusted=%v/auth=%s", present, bac, pace, cam, ca, aa, pa, sum.DataTrusted, ch)
 	res.Failed = r.Err != nil || s.BacErr != nil || s.PaceErr != nil || s.ChipAuthErr != nil || s.ActiveAuthErr != nil || s.PassiveAuthErr != nil || s.DocumentVerifyErr != nil
 	res.FailedSet = fmt.Sprintf("read=%v,bac=%v,pace=%v,ca=%v,aa=%v,pa=%v,verify=%v", r.Err != nil, s.BacErr != nil, s.PaceErr != nil, s.ChipAuthErr != nil, s.ActiveAuthErr != nil, s.PassiveAuthErr != nil, s.DocumentVerifyErr != nil)
@@ -369,6 +371,20 @@ func judgeCase(cc chipCfg, faults []fault, n int, base result) result {
 	}
 	if !failed && len(r.AlteredAuthenticated) > 0 {
 		r.Key, r.What = fmt.Sprintf("altered-file-unnoticed/%x", r.AlteredAuthenticated[0]), fmt.Sprintf("file(s) %x were altered on a clear-text exchange and returned, and neither an error nor a failed step (passive authentication) is recorded", r.AlteredAuthenticated)
+	}
+	if !failed && r.UnprotectedFault {
+		// a file that the fault-free read obtains and that the (already authenticated) security object lists is gone,
+		// and nothing is recorded: an error status on a clear-text SELECT was taken for "file not found"
+		have := map[int]bool{}
+		for _, d := range r.Present {
+			have[d] = true
+		}
+		for _, d := range base.Present {
+			if d >= 1 && d <= 16 && !have[d] {
+				r.Key, r.What = "clear-text-fault/listed-data-group-dropped-unnoticed", fmt.Sprintf("DG%d is listed in the security object and stored on the chip; after the fault it is missing from the document, the read reports no error and no failed step (trusted=%v)", d, strings.Contains(r.Complete, "trusted=true"))
+				break
+			}
+		}
 	}
 	if !failed && r.CardAccessDiffers && r.HasDG14 {
 		// a fault on the clear-text EF.CardAccess read: the returned file differs from the chip's although DG14 (which
